@@ -16,8 +16,8 @@ from aioesphomeapi.client import APIClient
 from aioesphomeapi.model import APIVersion, UserService, UserServiceArg, UserServiceArgType
 
 from vf import pbstub, track
-from vf.harness.common import base_loop, concretize, same, shard_int
-from vf.symtypes import IeeeFloat, RealFloat
+from vf.harness.common import base_loop, concretize, shard_int
+from vf.symtypes import IeeeFloat, RealFloat, same
 from vf.track import NoTracing
 
 PROPERTY = "C15"
